@@ -170,7 +170,8 @@ def firstDiff : List Obs → List Obs → Option String
   | [], i :: _ => some s!"impl has extra {convName i.conv}"
 
 /-- is the root call `(pure 0 label var)` with bit 1 of `var` set: the `pure=True` function declared as a METHOD of a class and
-    reached through its binder (`Asyncio.observeR`)?  (for a child the bit selects an access path the model does not distinguish) -/
+    reached through its binder (`Asyncio.observeR`; since /repo fec982c the model's observations do not depend on it)?  (for a
+    child the bit selects an access path the model does not distinguish) -/
 def rootPM : Sexp → Bool
   | .list [.atom "pure", _, _, v] => (v.nat?.getD 0) / 2 % 2 == 1
   | _ => false
